@@ -59,7 +59,7 @@ def run(ctx):
             if res["violated"]:
                 raise common.MachineryError("design step: %s violated on the ideal machine (%s)" % (res["violated"], name))
         p = ctx.vh(["document", "gen", str(300 if quick else 5000), str(40 if quick else 60)])
-        for line in p.stdout.decode().splitlines():
+        for line in p.stdout.decode().split("\n"):
             if line.strip():
                 fh.write(line + "\n")
                 n[0] += 1
